@@ -1,6 +1,7 @@
 // Conformance driver for spec/Gov/CR.tla + Proposal.tla (C22, C29).
 //
-//	crstate replay <cfg.json> <behaviours.jsonl> [sweep]
+//	crstate replay <cfg.json> <behaviours.jsonl> [sweep [shard n]]
+//	crstate checkpoint <cfg.json> <behaviours.jsonl> [0 [shard n]]   (C23, CR part: see checkpoint.go)
 //
 // Every behaviour TLC printed is replayed block by block on a real
 // crstate.Committee (instance A).  After every step
@@ -69,6 +70,8 @@ func main() {
 		rep.Summary(n, map[string]interface{}{"mode": "replay", "steps": st.steps, "blocks": st.blocks, "rollbacks": st.rollbacks,
 			"sweep_rollbacks": st.sweeps, "diff_compares": st.compares, "checker_verdicts": st.verdicts,
 			"probe_verdicts": st.probes, "double_withdraw_probes": st.doubleProbes, "txs": st.txs, "agree": st.agree}, sample)
+	case "checkpoint":
+		checkpointMode(NewEnv(cfg), rep.ReadBehaviours(os.Args[3]), shard, nshard)
 	default:
 		fmt.Fprintln(os.Stderr, "unknown mode")
 		os.Exit(3)
